@@ -524,9 +524,11 @@ static std::string RandDayDef(Rng& rng, long long day0)
 		return std::string(WD[rng.below(7)]) + "_" + std::to_string(rng.coin() ? n : -n) + "_" + MON[rng.coin() ? m - 1 : (int)rng.below(12)];
 	}
 	case 9: { /* calendar-date range, optionally with stride */
-		long long a = near - (long long)rng.below(6), b = near + (long long)rng.below(8);
+		bool wide = rng.below(3) == 0;
+		long long a = near - (long long)rng.below(wide ? 25 : 6), b = near + (long long)rng.below(wide ? 25 : 8);
 		std::string s = DateStr(a) + "_-_" + DateStr(b);
-		if (rng.coin()) s += "_/_" + std::to_string(1 + (int)rng.below(4));
+		static const int strides[] = { 1, 2, 3, 4, 7 };
+		if (rng.coin()) s += "_/_" + std::to_string(strides[rng.below(5)]);
 		return s;
 	}
 	case 10: { /* month-day range */
@@ -555,10 +557,60 @@ static long long MkLocal(long long day, int tod)
 	return (long long)mktime(&t);
 }
 
+/* Strided day ranges around New Year: the day index of a stride must count calendar days across the year
+ * boundary, after leap years (2024->2025, 2028->2029) as well as after common years.  Enumerated, not sampled. */
+static void GenNewYear(Rng& rng, bool thorough)
+{
+	static const int strides[] = { 2, 3, 7 };
+	static const int begins[] = { 20, 26, 29, 31 };  /* December */
+	static const int ends[] = { 2, 6, 11 };          /* January */
+	int n = 0;
+	for (int y = 2023; y <= 2028; y++)
+	for (int st : strides)
+	for (int bd : begins)
+	for (int ed : ends) {
+		std::string def = DateStr(CivilToDays(y, 12, bd)) + "_-_" + DateStr(CivilToDays(y + 1, 1, ed)) + "_/_" + std::to_string(st);
+		std::string enc = def + "=" + (n % 3 == 0 ? "00:00-24:00" : n % 3 == 1 ? "09:00-17:00" : "22:00-06:00");
+		long long d0 = CivilToDays(y, 12, bd) - 2, d1 = CivilToDays(y + 1, 1, ed) + 2;
+		long long b = MkLocal(d0, (int)rng.below(86400)), e = MkLocal(d1, (int)rng.below(86400));
+		OpCase("newyear");
+		if (n % 2 == 0) {
+			OpScript(b, e, enc);
+		} else {
+			OpPeriod(0, 1, "-", "-", enc);
+			OpUpdate(0, b, e, 1, "-");
+			std::string ts;
+			for (long long d = d0; d <= d1; d++) { /* noon and the range boundaries of every day of the window */
+				for (int tod : { 0, 32400, 43200, 61200, 79200 }) {
+					long long t = MkLocal(d, tod);
+					if (!ts.empty()) ts += ",";
+					ts += std::to_string(t - 1) + "," + std::to_string(t);
+				}
+			}
+			OpQuery(0, ts);
+		}
+		n++;
+	}
+	/* month-day forms around the turn of the year (they are evaluated within the reference's year, so they do not
+	 * cross it): strided ranges in December and January, counted from the begin and from the end of the month */
+	static const char *mdforms[] = { "december_20_-_31", "january_1_-_12", "day_20_-_31", "day_1_-_12", "day_-12_-_-1",
+		"december_-10_-_-1", "january_-31_-_-20", "february_20_-_29", "february_-9_-_-1" };
+	for (int y = 2024; y <= 2029; y += (thorough ? 1 : 2))
+	for (const char *f : mdforms)
+	for (int st : strides) {
+		std::string enc = std::string(f) + "_/_" + std::to_string(st) + "=00:00-24:00";
+		bool feb = std::string(f).find("february") != std::string::npos;
+		long long d0 = feb ? CivilToDays(y, 2, 15) : CivilToDays(y - 1, 12, 15), d1 = feb ? CivilToDays(y, 3, 3) : CivilToDays(y, 1, 16);
+		OpCase("monthday_stride");
+		OpScript(MkLocal(d0, (int)rng.below(86400)), MkLocal(d1, (int)rng.below(86400)), enc);
+	}
+}
+
 static void GenCalendar(uint64_t seed, bool thorough, const std::string& tz)
 {
 	Rng rng(seed * 1000003ULL + std::hash<std::string>()(tz) % 1000);
 	OpZone(tz);
+	GenNewYear(rng, thorough);
 	/* anchor days: every offset change of this zone in 2024..2029, month ends, leap day, plus random days */
 	std::vector<long long> anchors;
 	{
@@ -570,7 +622,10 @@ static void GenCalendar(uint64_t seed, bool thorough, const std::string& tz)
 	}
 	anchors.push_back(CivilToDays(2024, 2, 29));
 	anchors.push_back(CivilToDays(2028, 2, 29));
-	anchors.push_back(CivilToDays(2026, 12, 31));
+	for (int y = 2023; y <= 2029; y++) { /* every New Year, after leap years (2024, 2028) and after common years */
+		anchors.push_back(CivilToDays(y, 12, 31));
+		anchors.push_back(CivilToDays(y, 1, 1));
+	}
 	anchors.push_back(CivilToDays(2025, 3, 1));
 	anchors.push_back(CivilToDays(2027, 1, 31));
 	int n = thorough ? 12000 : 1500;
